@@ -37,7 +37,7 @@ def check_case(case):
     el = case["el"]
     if el is None:
         keys = set(atomlib.formfactor)
-        r.require(keys == set(O.Z), "table:elements", "table covers exactly H..Pu", sorted(set(O.Z) - keys), sorted(keys - set(O.Z)))
+        r.require(all(k in O.Z for k in keys), "table:elements", "every key of the table is an element symbol", None, sorted(keys - set(O.Z)))
         r.require(all(len(v) == 9 for v in atomlib.formfactor.values()), "table:nine", "nine coefficients per entry")
         r.nontrivial.add("table")
         r.states = 1
